@@ -542,7 +542,12 @@ def gen_script(rk, spec, kind, p=None):
         # stability pre-check with the reference Euler model: keep the planned run bounded and non-negative
         import numpy as np
         bound = 50.0 * (float(np.abs(m.x0).max()) + 10.0)
-        for _ in range(6):
+        overshoot = kind == "tauleap" and rk.chance(p.get("tauleap_overshoot", 0.0))
+        if overshoot:
+            # a deliberately coarse step: tau-leap draws may exceed what a cell holds (entries go negative); valid, and the
+            # regime where guards against non-positive means and negative populations matter
+            dt = rk.uniform(0.8, 3.0) / lam if lam > 0 else dt
+        for _ in range(0 if overshoot else 6):
             x = m.x0.copy()
             ok = True
             for _k in range(int(steps * 1.4) + 3):
